@@ -206,30 +206,49 @@ func InclusiveRangeContains(
 	end := getFieldAsIntegerValue(context, rangeValue, sema.InclusiveRangeTypeEndFieldName)
 	step := getFieldAsIntegerValue(context, rangeValue, sema.InclusiveRangeTypeStepFieldName)
 
-	result := start.Equal(context, needleValue) ||
-		end.Equal(context, needleValue)
-
-	if result {
+	if start.Equal(context, needleValue) {
 		return TrueValue
 	}
 
-	// Exclusive check since we already checked for boundaries above.
-	if !isNeedleBetweenStartEndExclusive(context, needleValue, start, end) {
-		result = false
-	} else {
-		// needle is in between start and end.
-		// start + k * step should be equal to needle i.e. (needle - start) mod step == 0.
-		diff, ok := needleValue.Minus(context, start).(IntegerValue)
-		if !ok {
-			panic(errors.NewUnreachableError())
-		}
+	// The end is only part of the sequence if it can be reached from start in steps of step,
+	// so it is checked like any other value after start.
+	if !end.Equal(context, needleValue) &&
+		!isNeedleBetweenStartEndExclusive(context, needleValue, start, end) {
 
-		zeroValue := GetSmallIntegerValue(0, rangeType.ElementType)
-		mod := diff.Mod(context, step)
-		result = mod.Equal(context, zeroValue)
+		return FalseValue
 	}
 
-	return BoolValue(result)
+	// needle is after start, and not beyond end.
+	// start + k * step should be equal to needle, i.e. needle and start must be congruent modulo step.
+	// NOTE: do not compute needle - start: it might not be representable in the element type.
+	zeroValue := GetSmallIntegerValue(0, rangeType.ElementType)
+	stepNegative := step.Less(context, zeroValue)
+
+	needleRemainder := inclusiveRangeRemainder(context, needleValue, step, stepNegative, zeroValue)
+	startRemainder := inclusiveRangeRemainder(context, start, step, stepNegative, zeroValue)
+
+	return BoolValue(needleRemainder.Equal(context, startRemainder))
+}
+
+// inclusiveRangeRemainder returns the remainder of value modulo step,
+// normalized to the range [0, |step|).
+func inclusiveRangeRemainder(
+	context ValueComparisonContext,
+	value IntegerValue,
+	step IntegerValue,
+	stepNegative BoolValue,
+	zeroValue IntegerValue,
+) NumberValue {
+	// The remainder has the sign of value, and its magnitude is smaller than the magnitude of step.
+	remainder := value.Mod(context, step)
+	if !remainder.Less(context, zeroValue) {
+		return remainder
+	}
+	// Add |step|
+	if stepNegative {
+		return remainder.Minus(context, step)
+	}
+	return remainder.Plus(context, step)
 }
 
 func getFieldAsIntegerValue(context ContainerElementContext, rangeValue *CompositeValue, name string) IntegerValue {
